@@ -86,7 +86,8 @@ MANIFEST = {
     "text": ("Bounded symbolic check of the real core/message.c: every body-chunk operation from an arbitrary "
              "invariant-satisfying chunk state (capacity concrete per query; offset, length, contents, arguments symbolic) "
              "against byte-string semantics; header operations for all header lengths 0..64 and all argument lengths; "
-             "big-endian forms for all values."),
+             "big-endian forms for all values. Also nni_msg_pull_up of a message somebody else holds (any header length incl. 0): "
+             "the caller gets a private copy, the shared original is untouched."),
     "note": ("Holds for the listed capacities and argument lengths <= 12 only; allocation assumed to succeed; "
              "relational comparison of NULL pointers at message.c nni_chunk_grow is triaged UB (pointer checks off for that line)."),
 }
